@@ -270,8 +270,20 @@ def kw_params(rng, required=(), n=None):
     return ', '.join(out)
 
 
+MULTILINE_INNER = [
+    "select a,\n       b\nfrom t",
+    "select *\n\nfrom t\nwhere a = 1",
+    "select *\n  -- only a comment here\nfrom t",
+    "select * /* c1 */\nfrom t\n\n\n  where b > 2",
+    "\n  select 1\n",
+    "select *\nfrom t -- trailing\nwhere x = 'a'",
+]
+
+
 def raw_inner(rng):
     """Inner text for embedded raw queries."""
+    if rng.random() < 0.2:
+        return rng.choice(MULTILINE_INNER)
     return rng.choice([
         'select * from t', "select a, b from tbl where c = 'x'", 'SELECT col1 FROM db.tbl WHERE x > 10 LIMIT 5',
         "select * from t where name = 'o''k'", 'select (a + b) * 2 as c from t', 'select 1',
@@ -620,3 +632,54 @@ def keyword_vocab(lexer_cls):
                 out.append(s)
     out += ['x', '1', "'s'", '1.5', '`q`', '@v', '?']
     return out
+
+
+# ----------------------------------------------------------------------------------------
+# hostile lexemes: identifiers that need (or look as if they need) quoting
+# ----------------------------------------------------------------------------------------
+
+def hostile_identifiers(lexer_cls, reserved=()):
+    """Deterministic list of identifier part texts: every token word of the lexer (also the multi-word /
+    underscore tokens) in several spellings and decorated with $, digits, underscores; plus all strings of
+    length <= 3 over a small hostile alphabet.  None contains a back-quote, so each can be written `x`."""
+    words = set()
+    for name in sorted(lexer_cls.tokens):
+        words.add(name.lower())
+        if '_' in name:
+            words.add(name.lower().replace('_', ' '))
+    for w in reserved:
+        words.add(str(w).lower())
+    out = []
+    for w in sorted(words):
+        out += [w, w.upper(), w.capitalize(), w + '$1', w + '$', '$' + w, w + '1', w + '_x', '1' + w, w + ' x', w + '.x']
+    alpha = ['a', 'B', '1', '$', '_', ' ', '-', '.', 'é']
+    for a in alpha:
+        out.append(a)
+        for b in alpha:
+            out.append(a + b)
+            for c in alpha:
+                out.append(a + b + c)
+    seen, res = set(), []
+    for x in out:
+        if x.strip() != x or x == '' or x in seen:
+            continue
+        seen.add(x)
+        res.append(x)
+    return res
+
+
+IDENT_POSITIONS = [
+    'SELECT `{x}` FROM t',
+    'SELECT a AS `{x}` FROM t',
+    'SELECT * FROM `{x}`',
+    'SELECT * FROM db.`{x}`',
+    'SELECT `{x}`.`{x}` FROM t',
+    'SELECT t.`{x}` FROM t AS `{x}`',
+    'SELECT a FROM (SELECT 1) AS `{x}`',
+    'INSERT INTO `{x}` (a) VALUES (1)',
+    'UPDATE t SET a = `{x}` WHERE `{x}` = 1',
+    'DROP TABLE `{x}`',
+    'CREATE MODEL `{x}` PREDICT `{x}`',
+    'USE `{x}`',
+    'SET `{x}` = 1',
+]
